@@ -234,6 +234,18 @@ func (w *World) probes(r *RunResult) {
 				r.Probes["up_split_reads"] += ex.Up.SplitReads
 			}
 			r.Probes["eof_with_data"] += ex.Down.EOFWithData + ex.Up.EOFWithData
+			if ex.PumpErrLive {
+				r.Probes["request_body_failed_response_open"]++
+			}
+			if ex.PumpErrLate {
+				r.Probes["request_body_failed_response_ended"]++
+			}
+			if o.Plan.K.PumpLag > 0 {
+				r.Probes["transport_lag_request_body"]++
+			}
+			if o.Plan.K.FinishLag > 0 {
+				r.Probes["transport_lag_end_of_response"]++
+			}
 		}
 		hits := o.Call.Hits()
 		for i, n := range hits {
